@@ -48,12 +48,25 @@ Cached(p) == p \in DOMAIN cache
 PutCache(p, id) == [q \in DOMAIN cache \cup {p} |-> IF q = p THEN id ELSE cache[q]]
 NewId == Len(heap) + 1
 
-\* Config.__init__ / EvalContext.evaluate: start evaluating the root
-Start(t) ==
+\* config.py:41: `pre_evaluate = copy.deepcopy(config_dict)`.  copy._reconstruct restores the state of a container
+\* and then attaches the (already copied) children through the normal mutators (composed.py:360-368): every child is
+\* adopted again by its parent, i.e. inherited flags are re-derived top-down from the explicit flags of the ancestors.
+RECURSIVE DeepCopy(_)
+DeepCopy(n) ==
+    IF ~IsComposed(n) THEN n
+    ELSE LET F[i \in 0..Len(n.ch)] ==
+               IF i = 0 THEN [n EXCEPT !.ch = <<>>]
+               ELSE SetChild(F[i-1], IF IsList(n) THEN IKey(i - 1) ELSE n.ch[i][1], DeepCopy(n.ch[i][2]))
+         IN F[Len(n.ch)]
+
+\* EvalContext.evaluate on a given working tree
+StartOn(t) ==
     /\ status = "idle"
     /\ work' = t /\ status' = "running"
     /\ stack' = <<Frame(<<>>, t)>>
     /\ UNCHANGED <<cache, heap, calls, evlog, reqsafe>>
+\* Config.__init__: evaluate a deep copy of the merged tree
+Start(t) == StartOn(DeepCopy(t))
 
 Fail(kind) == /\ status' = kind /\ UNCHANGED <<work, stack, cache, heap, calls, evlog, reqsafe>>
 
@@ -89,9 +102,9 @@ EvalRequired ==        \* required.py:26-27
 \* function nodes: call.py:56 / bind.py:80 `_require_safe(path)` before anything else
 FnGate ==
     /\ Running /\ IsFn(TopNode) /\ Top.i = 1 /\ ~Top.wait
-    /\ IF ~EffSafe(TopNode) THEN Fail("UnsafeError")
+    /\ IF ~EffSafe(TopNode) /\ ~Mut("NoFnGate") THEN Fail("UnsafeError")
        ELSE /\ stack' = SetTop([Top EXCEPT !.wait = TRUE, !.rs = reqsafe])   \* `with ctx.require_all_safe(...)`
-            /\ reqsafe' = TRUE
+            /\ reqsafe' = ~Mut("NoArgGate")
             /\ UNCHANGED <<work, cache, heap, calls, evlog, status>>
 
 ChildReady == Running /\ IsComposed(TopNode) /\ (IsFn(TopNode) => Top.wait) /\ Top.i <= Len(TopNode.ch)
@@ -186,7 +199,8 @@ XRefTaken ==
 EvalOpaque ==
     /\ Running /\ TopNode.k \in {"eval", "fstr", "import"}
     /\ IF ~EffSafe(TopNode) THEN Fail("UnsafeError")
-       ELSE Finish(VObj(Top.p, <<>>), <<[p |-> Top.p, fn |-> TopNode.k, args |-> <<>>]>>) /\ UNCHANGED reqsafe
+       ELSE Finish(VObj(Top.p, <<>>), <<[p |-> Top.p, fn |-> IF TopNode.k = "import" THEN TopNode.v[2] ELSE TopNode.k, args |-> <<>>]>>)
+            /\ UNCHANGED reqsafe
 
 EStep == \/ EvalScalar \/ EvalRequired \/ FnGate \/ EnterChild \/ FinishContainer
          \/ XRefAlias \/ XRefMissing \/ XRefFollow \/ XRefEnter \/ XRefTaken \/ EvalOpaque
